@@ -75,9 +75,8 @@ func propStatic(t *rapid.T) {
 		modelPrefix += model.Normalize(p, strict)
 	}
 	regCore := coreGen.Draw(t, "regCore")
-	if regCore == "" && ngroups > 0 && strict {
-		regCore = "a" // empty route path inside a group under strict mode is not defined by the statement
-	}
+	// an empty core is the index route of the group: N("") = "/", so the full path is N(prefix ++ "/"), which keeps its
+	// trailing slash under StrictLastSlash
 	reg := decorate(t, regCore)
 	if !model.Stable(reg, strict) {
 		t.Skip("unstable registered spelling")
